@@ -322,10 +322,59 @@ Definition sig_ctl (c : ctl_case) : N * N * N * N :=
    N.of_nat (length (c_cache s)) * 16 + N.of_nat (length (concat (model_calls (cc_packed c) (cc_pnew c) (cc_fallback c) (cinit c) (cc_rounds c))))).
 
 (* ------------------------------------------------------------------------------------------- *)
-Inductive acase := AFwd (c : fwd_case) | APipe (c : pipe_case) | AUdp (c : udp_case) | ACtl (c : ctl_case).
+(* forwarder cache                                                                              *)
+(* ------------------------------------------------------------------------------------------- *)
+Record fcache_case := {
+  kc_events : list kev;                 (* executed schedule: ends with the drain and a final closeAll *)
+  kc_trace : list N;                    (* where the stepped query parked after each KQ event *)
+  kc_results : list N;
+  kc_closes : list (N * bool);          (* per instance in creation order: Close() count, closed in flight *)
+  kc_cached : N                         (* entries left in the cache at the end *)
+}.
+
+Definition qpc_code (p : qpc) : N :=
+  match p with QIdle => 0 | QCreating _ => 1 | QHold _ _ => 2 | QUsing _ => 3 | QEnded _ => 4 | QRetiring _ => 5 | QDone _ => 7 end.
+
+Fixpoint fcache_trace (s : kstate) (evs : list kev) : list N :=
+  match evs with
+  | [] => []
+  | e :: rest =>
+      let s' := kstep true s e in
+      match e with
+      | KQ t => qpc_code (snd (nth t (k_qs s') (false, QIdle))) :: fcache_trace s' rest
+      | _ => fcache_trace s' rest
+      end
+  end.
+
+Definition q_result (q : bool * qpc) : N := match snd q with QDone r => r | _ => 9 end.
+
+Definition check_fcache (c : fcache_case) : list N :=
+  let s := krun true (kc_events c) in
+  (if list_eqb N.eqb (fcache_trace kinit (kc_events c)) (kc_trace c)
+      && list_eqb N.eqb (map q_result (k_qs s)) (kc_results c)
+      && list_eqb N.eqb (map (fun en => if fe_closed en then 1 else 0) (k_ents s)) (map fst (kc_closes c))
+      && Bool.eqb (k_bad s) (existsb snd (kc_closes c))
+      && ((match k_cache s with Some _ => 1 | None => 0 end) =? kc_cached c)
+   then [] else [1])
+  ++ (if fcache_ok (kc_closes c) && (kc_cached c =? 0) then [] else [2])
+  ++ (if k_quiescent s && forallb fe_closed (k_ents s) && negb (k_bad s)
+         && match k_cache s with None => true | Some _ => false end then [] else [3]).
+
+Definition sig_fcache (c : fcache_case) : N * N * N * N :=
+  let s := krun true (kc_events c) in
+  (500 + N.of_nat (length (k_qs s)), N.of_nat (length (k_ents s)),
+   N.of_nat (length (filter (fun q => q_result q =? 1) (k_qs s))) * 4
+   + N.of_nat (length (filter (fun q => q_result q =? 2) (k_qs s))),
+   N.of_nat (length (filter (fun e => match e with KReload => true | _ => false end) (kc_events c)))).
+
+(* ------------------------------------------------------------------------------------------- *)
+Inductive acase := AFwd (c : fwd_case) | APipe (c : pipe_case) | AUdp (c : udp_case) | ACtl (c : ctl_case)
+                 | AFcache (c : fcache_case).
 
 Definition check_case (a : acase) : list N :=
-  match a with AFwd c => check_fwd c | APipe c => check_pipe c | AUdp c => check_udp c | ACtl c => check_ctl c end.
+  match a with AFwd c => check_fwd c | APipe c => check_pipe c | AUdp c => check_udp c | ACtl c => check_ctl c
+          | AFcache c => check_fcache c end.
 
 Definition case_signature (a : acase) : N * N * N * N :=
-  match a with AFwd c => sig_fwd c | APipe c => sig_pipe c | AUdp c => sig_udp c | ACtl c => sig_ctl c end.
+  match a with AFwd c => sig_fwd c | APipe c => sig_pipe c | AUdp c => sig_udp c | ACtl c => sig_ctl c
+          | AFcache c => sig_fcache c end.
